@@ -17,7 +17,8 @@ TRUSTED = ['tools/chaos_preload.c (LD_PRELOAD shim: random delays for the undriv
            'the ROBSD_VERIF sync-point hook in step.c (verif.h), this scheduler (FIFO + SIGSTOP/SIGCONT, /proc/<pid>/wchan to tell "blocked in flock")',
            'ASSUMED, not verified: flock(2) grants LOCK_EX to one holder at a time and releases it at LOCK_UN/exit; each syscall between two sync points is atomic; '
            'fopen("w") truncates at open; a process\'s output and exit status depend only on the content it read',
-           'schedules are driven at sync-point granularity for 2-4 processes; the theorem quantifies over all schedules of any number of processes']
+           'schedules are driven at sync-point granularity for 1-5 processes with arbitrary operations and for 8, 16 and 17 processes of two families; the theorem quantifies over all schedules of any number of processes',
+           'CAPPED by the cost of the extracted oracle: LockSpec.spec_ok_serial enumerates the n! orders (0.3 s at n = 6, 3 s at n = 7 per failing case, 100 times that on a 100-row file), so it is asked for up to 5 processes; for more processes only two families are generated - writers of pairwise different rows with readers of one row each, and full writes of one row with readers of it - whose serial results are enumerated by harness code (c02.structured_serial: what one process does to a content and reports is still computed by the model, the argument that every order gives the same file / that the last writer decides it is the harness\'s)']
 
 POINTS = ['step.after_open', 'step.after_lock', 'step.after_read', 'step.before_truncate', 'step.after_truncate',
           'step.after_write', 'step.after_unlock']
@@ -47,7 +48,180 @@ INIT_FILES = [b'', b'step,name,exit,duration,delta,log,user,time,skip\n1,one,0,5
               b'step,name,exit,duration,delta,log,user,time,skip\n1,one,0,5,0,,root,1700000000,0\n2,two,-1,-1,0,002-two.log,root,1700000001,0\n']
 
 
-def gen_case(rng):
+# ---------------------------------------------------------------------------------------------------------------------
+# Boundary SIZE / COUNT classes of the critical section (corpus/C02/b*.json first, then ~6% of the generated cases of the
+# driven and of the undriven lane; `class:` lines of the input distribution):
+#  * starting files of exactly 4095 / 4096 / 4097 / 8191 / 8192 / 8193 bytes and of 2 and 3 stdio blocks: the rewrite then reaches
+#    the file in two write(2) calls (fwrite the whole blocks, fclose the tail) and a window between them in which the lock is
+#    not held shows a block-aligned prefix to whoever gets in;
+#  * 0 / 1 / 16 / 17 / 32 / 33 / 64 / 65 rows; 1, 5, 8, 16 and 17 concurrent processes; N writers of the SAME row and of N different
+#    rows; one reader started between every pair of the writer's sync points; the same id written twice with the same
+#    arguments; ids 2^31 apart (the merged result depends on the 64-bit sort order).
+# Cap: LockSpec.spec_ok_serial enumerates all n! orders (n = 6: 0.3 s, n = 7: 3 s per failing case on a three-row file, 18 s /
+# 147 s on a 100-row file), so it is asked for n <= EXACT_MAX processes; cases with more processes are generated only in two
+# families whose serial results can be enumerated without the orders (structured_serial below).
+BLOCK = 4096
+EXACT_MAX = 5
+SIZE_CLASSES = [BLOCK - 1, BLOCK, BLOCK + 1, 2 * BLOCK - 1, 2 * BLOCK, 2 * BLOCK + 1, 3 * BLOCK]
+ROW_CLASSES = [0, 1, 16, 17, 32, 33, 64, 65]
+HDR = b'step,name,exit,duration,delta,log,user,time,skip\n'
+
+
+def brow(i, name=None, log=b''):
+    return b'%d,%s,0,%d,0,%s,root,17000000%02d,0\n' % (i, name if name is not None else b'step-number-%d' % i, i % 1000, log, i % 100)
+
+
+def rows_file(n):
+    return HDR + b''.join(brow(i) for i in range(1, n + 1))
+
+
+def sized_file(total, rowlen=120):
+    """a step file of exactly `total` bytes (rows of about `rowlen` bytes, the last one padded through its log column)"""
+    out, i = HDR, 0
+
+    def nm(j):
+        return (b'step-number-%d-' % j) + b'n' * max(0, rowlen - 45)
+    while len(out) + len(brow(i + 1, nm(i + 1))) + len(brow(i + 2, nm(i + 2))) <= total:
+        i += 1
+        out += brow(i, nm(i))
+    gap = total - len(out) - len(brow(i + 1, nm(i + 1)))
+    if gap >= 0:
+        out += brow(i + 1, nm(i + 1), b'p' * gap)
+    return out
+
+
+def full_w(idarg, name, t=0):
+    return {'kind': 'w', 'id': str(idarg), 'kvs': ['name=%s' % name, 'exit=0', 'duration=%d' % (t % 90), 'user=root', 'time=%d' % (1700000000 + t % 100)]}
+
+
+def fam_distinct(rng, n, init, nrows):
+    """n processes that commute: writers of pairwise different ids (new rows, or partial updates of rows the file holds), and
+    readers by a name only one row can carry - every serial order gives the same final file and the same writer reports, and
+    a reader reports what its row looked like before or after the one writer of that row"""
+    ops, used = [], set()
+    for i in range(n):
+        k = rng.random()
+        if k < 0.2 and i > 0 and ops[0]['kind'] == 'w':
+            j = rng.randrange(i)
+            nmq = [kv[5:] for kv in ops[j]['kvs'] if kv.startswith('name=')] if ops[j]['kind'] == 'w' else []
+            ops.append({'kind': 'r', 'how': 'n', 'arg': nmq[0] if nmq else 'step-number-1', 'template': '${step}:${name}:${exit}:${duration}\n'})
+            continue
+        if nrows and k < 0.5:
+            cand = [r for r in range(1, nrows + 1) if r not in used]
+            if cand:
+                r = rng.choice(cand)
+                used.add(r)
+                ops.append({'kind': 'w', 'id': str(r), 'kvs': [rng.choice(['exit=1', 'duration=77', 'log=%03d-x.log' % r, 'skip=1'])]})
+                continue
+        ops.append(full_w(1000 + i, 'p%d' % i, i))
+    return ops
+
+
+def fam_same(rng, n, row):
+    """n full writes of ONE id with the same keys (plus at most n/4 readers of that row by position): the final row is that of
+    whichever writer came last, every writer exits 0, a reader sees the starting file or the row of one of the writers"""
+    ops = []
+    for i in range(n):
+        if i > 0 and rng.random() < 0.2:
+            ops.append({'kind': 'r', 'how': 'i', 'arg': str(row), 'template': '${step}:${name}:${duration}\n'})
+        else:
+            ops.append(full_w(row, 'same%d' % i, i))
+    return ops
+
+
+def gen_boundary_case(rng, lane):
+    c = rng.choice(['size', 'size', 'rows', 'rows', 'procs', 'procs', 'same-row', 'reader-between', 'same-id-twice', 'ids-apart'])
+    case = {'init': '', 'ops': [], 'sched': []}
+    if c == 'size':
+        total = rng.choice(SIZE_CLASSES + [BLOCK + rng.randint(2, 3000), 2 * BLOCK + rng.randint(2, 3000)])
+        init = sized_file(total, rng.choice([60, 120, 200]))
+        nrows = init.count(b'\n') - 1
+        n = rng.choice([2, 2, 3])
+        ops = []
+        for i in range(n):
+            k = rng.random()
+            if k < 0.45:
+                ops.append({'kind': 'w', 'id': str(rng.choice([1, nrows, max(1, nrows // 2)])), 'kvs': [rng.choice(['exit=1', 'exit=0', 'skip=1'])]})   # keeps the length
+            elif k < 0.75:
+                ops.append(full_w(nrows + 1 + i, 'p%d' % i, i))
+            else:
+                ops.append({'kind': 'r', 'how': 'i', 'arg': rng.choice(['1', '-1', str(nrows)]), 'template': '${step}:${name}:${exit}\n'})
+        if not any(o['kind'] == 'w' for o in ops):
+            ops[0] = full_w(nrows + 1, 'p0')
+        case.update(init=init.hex(), ops=ops)
+    elif c == 'rows':
+        nrows = rng.choice(ROW_CLASSES)
+        init = rows_file(nrows)
+        n = rng.choice([2, 3, 3])
+        ops = []
+        for i in range(n):
+            k = rng.random()
+            if k < 0.5:
+                ops.append(full_w(nrows + 1 + rng.choice([0, 0, 1]), 'p%d' % i, i))          # the row that makes the vector grow, possibly the same one twice
+            elif k < 0.75 and nrows:
+                ops.append({'kind': 'w', 'id': str(rng.choice([1, nrows])), 'kvs': ['exit=%d' % i]})
+            else:
+                ops.append({'kind': 'r', 'how': 'i', 'arg': rng.choice(['-1', str(nrows + 1), str(max(1, nrows))]), 'template': '${step}:${name}:${exit}\n'})
+        if not any(o['kind'] == 'w' for o in ops):
+            ops[0] = full_w(nrows + 1, 'p0')
+        case.update(init=init.hex(), ops=ops)
+    elif c == 'procs':
+        n = rng.choice([1, 5, 5, 8, 8, 16, 17] if lane == 'undriven' else [1, 1, 5, 5, 5, 5, 8, 8, 8, 8, 16, 17])
+        nrows = rng.choice([0, 2, 17])
+        init = rows_file(nrows) if nrows else rng.choice([b'', HDR])
+        if n <= EXACT_MAX:
+            ops = [gen_op(rng, i) for i in range(n)]
+            if not any(o['kind'] == 'w' for o in ops):
+                ops[0] = full_w(2, 'two')
+            case.update(init=(INIT_FILES[2] if nrows else b'').hex(), ops=ops)
+        else:
+            case.update(init=init.hex(), ops=fam_distinct(rng, n, init, nrows), family='distinct')
+    elif c == 'same-row':
+        n = rng.choice([3, 4, 5, 8, 16])
+        init = rows_file(rng.choice([2, 3]))
+        case.update(init=init.hex(), ops=fam_same(rng, n, 2), family='same')
+    elif c == 'reader-between':
+        init = rng.choice([rows_file(3), sized_file(2 * BLOCK + 500)])
+        ops = [full_w(2, 'rewritten') if rng.random() < 0.5 else full_w(1000, 'new')]
+        for k in range(1, 8):
+            ops.append({'kind': 'r', 'how': 'n', 'arg': rng.choice(['rewritten', 'new', 'step-number-2', 'step-number-1']), 'template': '${step}:${name}:${exit}:${duration}\n'})
+        case.update(init=init.hex(), ops=ops, family='distinct')
+        for k in range(1, 8):
+            case['sched'] += [0] + [k] * 5
+    elif c == 'same-id-twice':
+        init = rng.choice([b'', rows_file(1), rows_file(3)])
+        w = full_w(rng.choice([2, 3, 9]), 'twice', 5)
+        ops = [w, dict(w)] + ([gen_op(rng, 2)] if rng.random() < 0.5 else [])
+        case.update(init=init.hex(), ops=ops)
+    else:   # ids-apart
+        ids = rng.choice([[-1073741824, 1073741824], [-2147483647, 1], [2147483647, -1], [-2147483647, 2147483647], [1073741823, -1073741825]])
+        init = HDR + b''.join(brow(i, b'id%d' % i) for i in sorted(rng.sample(ids, rng.randint(0, 1)) + [5]))
+        ops = [full_w(i, 'w%d' % i, abs(i)) for i in ids]
+        ops.append({'kind': 'r', 'how': 'i', 'arg': rng.choice(['1', '-1', '2']), 'template': '${step}:${name}\n'})
+        rng.shuffle(ops)
+        case.update(init=init.hex(), ops=ops)
+    n = len(case['ops'])
+    if not case['sched'] and lane == 'driven':
+        sched = list(range(n))
+        order = list(range(n))
+        rng.shuffle(order)
+        if n <= 5:
+            for p in order:
+                sched += [p] * rng.randint(1, 4) + [rng.randrange(n)] * rng.randint(0, 2)
+        else:
+            sched += [rng.randrange(n) for _ in range(rng.randint(n, 2 * n))]
+        tail = list(range(n)) * (9 if n <= 5 else 1)
+        rng.shuffle(tail)
+        case['sched'] = sched + tail
+    return case
+
+
+P_BOUNDARY = 0.06
+
+
+def gen_case(rng, lane='driven'):
+    if rng.random() < P_BOUNDARY:
+        return gen_boundary_case(rng, lane)
     n = rng.choice([2, 2, 3, 3, 4])
     ops = [gen_op(rng, i) for i in range(n)]
     if not any(o['kind'] == 'w' for o in ops):
@@ -208,8 +382,9 @@ class Sched:
             if i not in self.procs:
                 self.start(i)
                 self.settle()
-        # push everybody until all have exited
-        for _ in range(40):
+        # push everybody until all have exited (a process blocked in flock is not pushed: with n processes behind one lock
+        # only its holder moves, seven points each)
+        for _ in range(40 + 8 * len(self.case['ops'])):
             alive = [i for i, p in self.procs.items() if p.poll() is None]
             if not alive:
                 break
@@ -273,9 +448,139 @@ def normalise(events):
     return [(i, n, f) for i, n, f, _ in ev]
 
 
+def single(drv, content, op):
+    """one process alone on `content`, on the model: (content it leaves, its report token)"""
+    a = common.run_driver(drv, [' '.join(['trace', hexs(content), '1'] + op_toks(op) + ['9'] + ['0'] * 9)])[0]
+    tr, lg, reps = [x.strip() for x in a.split('|')]
+    last = [t for t in tr.split(' ') if t.startswith('1')][-1]
+    return common.unhex(last[1:]), reps.split(' ')[0]
+
+
+def structured_serial(drv, case, final, reps):
+    """Serialisability for more than EXACT_MAX processes (LockSpec.spec_ok_serial enumerates n! orders), for the two generated
+    families only.  What one process does to a content and what it reports are the model's (LockSpec.op_upd / op_out through the
+    driver); the argument about the ORDERS is made here and is part of the trusted harness:
+      distinct - writers of pairwise different ids whose acceptance does not depend on the other rows, readers of one row each:
+                 every order leaves the same file F (computed in index order) and the same writer reports; a reader is placed
+                 before or after the one writer of its row, so it reports what the starting file or F gives;
+      same     - full writes of one id with the same keys: the file is that of the starting file with the row of the writer that
+                 came last; a reader of that row reports the starting file's or some writer's row.
+    Returns (ok, why)."""
+    fam = case.get('family')
+    ops = case['ops']
+    init = bytes.fromhex(case['init'])
+    writers = [i for i, o in enumerate(ops) if o['kind'] == 'w']
+    readers = [i for i, o in enumerate(ops) if o['kind'] == 'r']
+    if fam == 'distinct':
+        ids = [ops[i]['id'] for i in writers]
+        if len(set(ids)) != len(ids):
+            raise common.BuildFailure('family distinct with a repeated id')
+        cur = init
+        for i in writers:
+            alone = single(drv, init, ops[i])[1]
+            cur, rep = single(drv, cur, ops[i])
+            if rep != alone:
+                raise common.BuildFailure('family distinct: the report of process %d depends on the other writers' % i)
+            if reps[i] != rep:
+                return False, 'writer %d reports %s, in every order it reports %s' % (i, reps[i], rep)
+        if final != cur:
+            return False, 'the final file differs from the result of the writers in any order'
+        cands = [init, cur]
+    elif fam == 'same':
+        cands = [init]
+        for i in writers:
+            c1, rep = single(drv, init, ops[i])
+            if reps[i] != rep:
+                return False, 'writer %d reports %s, the model %s' % (i, reps[i], rep)
+            cands.append(c1)
+        if final not in (cands[1:] if writers else cands):
+            return False, 'the final file is not the starting file with the row of one of the writers'
+    else:
+        raise common.BuildFailure('a case of %d processes without a family: the n! oracle is not asked beyond %d processes' % (len(ops), EXACT_MAX))
+    for i in readers:
+        qs = [' '.join(['serial', hexs(c), hexs(c), '1'] + op_toks(ops[i]) + [reps[i]]) for c in cands]
+        if '1' not in common.run_driver(drv, qs):
+            return False, 'reader %d reports %s, which no content between two writers gives' % (i, reps[i])
+    return True, ''
+
+
+def serial_verdict(drv, case, final, reps):
+    """'1'/'0' (+ reason): the extracted n! oracle up to EXACT_MAX processes, the structured one beyond"""
+    n = len(case['ops'])
+    if n <= EXACT_MAX:
+        optoks = [str(n)]
+        for o in case['ops']:
+            optoks += op_toks(o)
+        return common.run_driver(drv, [' '.join(['serial', case['init'] or '-', hexs(final)] + optoks + reps)])[0] == '1', ''
+    return structured_serial(drv, case, final, reps)
+
+
+def classes_of_case(case):
+    cl = set()
+    init = bytes.fromhex(case['init'])
+    ops = case['ops']
+    n = len(ops)
+    if len(init) in SIZE_CLASSES:
+        cl.add('starting file of exactly %d bytes' % len(init))
+    if len(init) > BLOCK:
+        cl.add('starting file of %d stdio blocks (rewrite in several write(2) calls)' % ((len(init) + BLOCK - 1) // BLOCK))
+    if init == b'' or init.startswith(HDR):
+        nrows = max(0, init.count(b'\n') - 1)
+        if nrows in ROW_CLASSES and nrows != 1 or (nrows == 1 and init not in INIT_FILES):
+            cl.add('starting file of %d rows' % nrows)
+    if n in (1, 5, 8, 16, 17):
+        cl.add('%d concurrent processes' % n)
+    wids = [o['id'] for o in ops if o['kind'] == 'w']
+    if case.get('family') == 'same' or (len(wids) >= 3 and len(set(wids)) == 1):
+        cl.add('%s writers of the same row' % ('3-5' if len(wids) <= 5 else '6-17'))
+    if case.get('family') == 'distinct' and len(wids) >= 6:
+        cl.add('6-17 writers of different rows')
+    if len(wids) >= 2 and any(ops[i]['kind'] == 'w' and ops[j]['kind'] == 'w' and ops[i]['id'] == ops[j]['id'] and ops[i]['kvs'] == ops[j]['kvs']
+                              for i in range(n) for j in range(i + 1, n)):
+        cl.add('the same id written twice with the same arguments')
+    try:
+        nums = sorted(set(int(x) for x in wids))
+        if any(b - a >= 2 ** 31 for a in nums for b in nums):
+            cl.add('writers of ids 2^31 or more apart')
+    except ValueError:
+        pass
+    if len(wids) == 1 and n == 8 and case.get('sched', [])[:2] == [0, 1]:
+        cl.add('a reader between every pair of writer sync points')
+    return cl
+
+
+def expand_case(c):
+    """compact corpus forms: 'init_build': {'rows': N} | {'total': T, 'rowlen': L}; 'ops_build': {'family': 'distinct'|'same', 'n': N, 'seed': S,
+    'rows': R}; 'sched_build': 'all-open-then-round-robin' | 'reader-between'"""
+    import random
+    c = dict(c)
+    ib = c.pop('init_build', None)
+    if ib is not None:
+        c['init'] = (rows_file(ib['rows']) if 'rows' in ib else sized_file(ib['total'], ib.get('rowlen', 120))).hex()
+    ob = c.pop('ops_build', None)
+    if ob is not None:
+        r = random.Random(ob.get('seed', 0))
+        init = bytes.fromhex(c['init'])
+        c['ops'] = fam_distinct(r, ob['n'], init, max(0, init.count(b'\n') - 1)) if ob['family'] == 'distinct' else fam_same(r, ob['n'], ob.get('row', 2))
+        c['family'] = ob['family']
+    sb = c.pop('sched_build', None)
+    n = len(c['ops'])
+    if sb == 'all-open-then-round-robin':
+        c['sched'] = list(range(n)) + list(range(n)) * 2
+    elif sb == 'reader-between':
+        c['sched'] = [x for k in range(1, n) for x in [0] + [k] * 5]
+    return c
+
+
+def built(ctx):
+    """the implementation and the driver, built once per run (every lane used to rebuild both: four times the Coq lock)"""
+    if not hasattr(ctx, '_c02_built'):
+        ctx._c02_built = (ctx.build_impl(), ctx.build_driver('lk'))
+    return ctx._c02_built
+
+
 def evaluate(ctx, cases, res):
-    impl = ctx.build_impl()
-    drv = ctx.build_driver('lk')
+    impl, drv = built(ctx)
     import shutil, tempfile
     base = ctx.mkscratch('c02')
     for ci, case in enumerate(cases):
@@ -302,8 +607,15 @@ def evaluate(ctx, cases, res):
         evs = [str(i) for (i, _, _) in ob['events']]
         q1 = ' '.join(['trace', case['init'] or '-'] + optoks + [str(len(evs))] + evs)
         reps = ['%d:%s' % (rc if rc >= 0 else 999, hexs(out)) for (rc, out, err) in ob['outs']]
-        q2 = ' '.join(['serial', case['init'] or '-', hexs(ob['final'])] + optoks + reps)
-        a1, a2 = common.run_driver(drv, [q1, q2])
+        why2 = ''
+        if n <= EXACT_MAX:
+            a1, a2 = common.run_driver(drv, [q1, ' '.join(['serial', case['init'] or '-', hexs(ob['final'])] + optoks + reps)])
+        else:
+            a1 = common.run_driver(drv, [q1])[0]
+            ok2, why2 = structured_serial(drv, case, ob['final'], reps)
+            a2 = '1' if ok2 else '0'
+        for c_ in sorted(classes_of_case(case)):
+            res.count('class: %s [driven]' % c_)
         res.evaluations += 1
         key = hashlib.sha1(json.dumps([case['ops'], evs], sort_keys=True).encode()).hexdigest()
         tr, lg, mreps = [x.strip() for x in a1.split('|')]
@@ -330,7 +642,7 @@ def evaluate(ctx, cases, res):
             res.disagreements.append({'case': case, 'why': bad, 'events': [(i, nme) for (i, nme, _) in ob['events']], 'model': a1[:600]})
         if a2 != '1':
             res.oracle_failures.append({'case': case, 'signature': 'not-serialisable',
-                                        'what': 'final file / reports of %d concurrent robsd-step processes equal no serial order of them' % n,
+                                        'what': 'final file / reports of %d concurrent robsd-step processes equal no serial order of them%s' % (n, (': ' + why2) if why2 else ''),
                                         'final': ob['final'].decode('latin1'), 'reports': reps,
                                         'events': [(i, nme) for (i, nme, _) in ob['events']]})
         if any(rc not in (0, 1) for (rc, _, _) in ob['outs']):
@@ -339,11 +651,14 @@ def evaluate(ctx, cases, res):
 
 
 def build_chaos(ctx):
+    if hasattr(ctx, '_c02_chaos'):
+        return ctx._c02_chaos
     d = ctx.mkscratch('chaos')
     so = os.path.join(d, 'chaos.so')
     r = common.sh(['cc', '-shared', '-fPIC', '-O1', os.path.join(common.VERIF, 'tools', 'chaos_preload.c'), '-o', so, '-ldl'])
     if r.returncode != 0:
         raise common.BuildFailure('chaos_preload: ' + r.stdout[-800:])
+    ctx._c02_chaos = so
     return so
 
 
@@ -377,11 +692,8 @@ def undriven_one(impl, drv, so, base, case, chaos_seed):
             reps.append('999:-')
     final = open(path, 'rb').read()
     shutil.rmtree(work, ignore_errors=True)
-    optoks = [str(len(case['ops']))]
-    for o in case['ops']:
-        optoks += op_toks(o)
-    a = common.run_driver(drv, [' '.join(['serial', case['init'] or '-', hexs(final)] + optoks + reps)])[0]
-    return a == '1', final, reps
+    ok, _why = serial_verdict(drv, case, final, reps)
+    return ok, final, reps
 
 
 def undriven(ctx, impl, drv, res, rounds):
@@ -390,11 +702,13 @@ def undriven(ctx, impl, drv, res, rounds):
     so = build_chaos(ctx)
     base = ctx.mkscratch('c02u')
     for k in range(rounds):
-        case = gen_case(ctx.rng)
+        case = gen_case(ctx.rng, 'undriven')
         case['sched'] = []
         ok, final, reps = undriven_one(impl, drv, so, base, case, ctx.seed * 100003 + k)
         res.evaluations += 1
         res.count('undriven procs=%d' % len(case['ops']))
+        for c_ in sorted(classes_of_case(case)):
+            res.count('class: %s [undriven]' % c_)
         if not ok:
             res.oracle_failures.append({'case': dict(case, undriven=True, chaos_seed=ctx.seed * 100003 + k), 'signature': 'not-serialisable',
                                         'what': 'undriven run under the delay shim: final file / reports of %d concurrent robsd-step processes equal no serial order' % len(case['ops']),
@@ -476,7 +790,7 @@ def load_corpus():
         raise common.BuildFailure('corpus/C02 is missing or empty (%s): the replays of the seeded schedules must run first' % d)
     out = []
     for p in paths:
-        c = json.load(open(p))
+        c = expand_case(json.load(open(p)))
         c['corpus'] = os.path.basename(p)
         out.append(c)
     return out
@@ -490,13 +804,16 @@ def run_corpus(ctx, res):
     evaluate(ctx, driven, res)
     und = [c for c in corpus if c.get('undriven')]
     if und:
-        impl, drv, so, base = ctx.build_impl(), ctx.build_driver('lk'), build_chaos(ctx), ctx.mkscratch('c02c')
+        (impl, drv), so, base = built(ctx), build_chaos(ctx), ctx.mkscratch('c02c')
         for c in und:
             for k in range(int(c.get('chaos_rounds', 40))):
                 seed = int(c.get('chaos_seed', 0)) + k
                 ok, final, reps = undriven_one(impl, drv, so, base, c, seed)
                 res.evaluations += 1
                 res.count('corpus undriven ' + c['corpus'])
+                if k == 0:
+                    for c_ in sorted(classes_of_case(c)):
+                        res.count('class: %s [undriven]' % c_)
                 if not ok:
                     res.oracle_failures.append({'case': dict(c, chaos_seed=seed), 'signature': 'not-serialisable',
                                                 'what': 'corpus case %s, undriven under the delay shim: final file / reports equal no serial order' % c['corpus'],
@@ -508,11 +825,13 @@ def run_corpus(ctx, res):
 
 def run(ctx, n=None):
     res = common.Result()
-    res.rule = ('the corpus first (the schedules of the two seeded changes; the window without a sync point undriven under the delay shim); then 2-4 real robsd-step -W/-R processes (new ids, same ids, partial updates, rejected writes, reads by position and by name) on one file, '
+    res.rule = ('the corpus first (the schedules of the two seeded changes; the window without a sync point undriven under the delay shim); then 2-4 (boundary classes: 1-17) real robsd-step -W/-R processes (new ids, same ids, partial updates, rejected writes, reads by position and by name) on one file, '
                 'driven through the 7 sync points of step.c along adversarial and random schedules; the observed event trace is replayed on the model '
                 '(file content compared after every event, reports at the end) and the final file/reports checked against all serial orders; single processes under a '
                 'tracing shim (order of the calls on the step file and its lock; file size after the truncation, at the entry of fclose, after it and at the unlock, for files '
                 'below, across and exactly on stdio block boundaries); '
+                'boundary classes in the corpus (corpus/C02/b*.json) and in ~6% of the generated cases of the driven and the undriven lane (`class:` lines): starting files of exactly 4095-4097 / 8191-8193 bytes and of 2 and 3 stdio blocks, '
+                '0/1/16/17/32/33/64/65 rows, 1, 5, 8, 16 and 17 processes, up to 17 writers of the same row and of different rows, a reader started between every two sync points of a writer, the same id written twice, ids 2^31 apart; '
                 'non-trivial = at least one writer and at least two processes produced events; distinct by ops+event trace')
     n = n or ctx.budget(250, 4000)
     run_corpus(ctx, res)                      # corpus first
@@ -522,8 +841,8 @@ def run(ctx, n=None):
     if not any(k.startswith('events=') for k in res.distribution):
         res.tie_errors.append('driven lane: no case produced an event trace')
     res.traces_validated = res.evaluations
-    undriven(ctx, ctx.build_impl(), ctx.build_driver('lk'), res, ctx.budget(150, 3000) if n >= 250 else max(20, n // 2))
-    callorder(ctx, ctx.build_impl(), ctx.build_driver('lk'), res, ctx.budget(120, 1500) if n >= 250 else 30)
+    undriven(ctx, built(ctx)[0], built(ctx)[1], res, ctx.budget(150, 3000) if n >= 250 else max(20, n // 2))
+    callorder(ctx, built(ctx)[0], built(ctx)[1], res, ctx.budget(120, 1500) if n >= 250 else 30)
     return res
 
 
